@@ -1325,15 +1325,19 @@ valid_pil_validity_window	(time_t *		begin,
 	}
 
 	start = mktime (&tm);
-	if (unlikely ((time_t) -1 == start))
+	if (unlikely ((time_t) -1 == start)) {
+		saved_errno = errno;
 		goto failed;
+	}
 
 	tm2.tm_mday += 1;
 	tm2.tm_hour = 4;
 
 	stop = mktime (&tm2);
-	if (unlikely ((time_t) -1 == stop))
+	if (unlikely ((time_t) -1 == stop)) {
+		saved_errno = errno;
 		goto failed;
+	}
 
 	if (unlikely (!restore_tz (&old_tz, tz)))
 		return FALSE;
